@@ -178,11 +178,19 @@ fn run(args: &[String]) -> i32 {
     let exe = std::env::current_exe().unwrap();
     let budget = Duration::from_secs(if thorough { p.budget_thorough_s } else { p.budget_quick_s });
 
+    // properties whose verdict depends on integer overflow semantics run a second time in a wrapping
+    // (release-like) build of the harness + rivia
+    let wrap_bin = std::env::var("VERIF_WRAP_BIN").ok().filter(|b| !b.is_empty() && ["C07", "C12", "C19"].contains(&prop.as_str()) && std::path::Path::new(b).exists());
     let mut children = vec![];
-    for i in 0..shards {
-        let out = format!("{}/shard{}.json", run_dir, i);
-        let log = std::fs::File::create(format!("{}/shard{}.log", run_dir, i)).unwrap();
-        let c = Command::new(&exe)
+    let mut plans: Vec<(usize, String, std::path::PathBuf)> = (0..shards).map(|i| (i, format!("{}/shard{}.json", run_dir, i), exe.clone())).collect();
+    if let Some(wb) = &wrap_bin {
+        for i in 0..shards {
+            plans.push((i, format!("{}/shardW{}.json", run_dir, i), std::path::PathBuf::from(wb)));
+        }
+    }
+    for (i, out, bin) in plans {
+        let log = std::fs::File::create(format!("{}.log", out)).unwrap();
+        let c = Command::new(&bin)
             .args(["worker", &prop, "--tier", &tier, "--seed", &seed.to_string(), "--shard", &format!("{}/{}", i, shards), "--out", &out])
             .stdin(Stdio::null())
             .stdout(Stdio::from(log.try_clone().unwrap()))
@@ -311,6 +319,7 @@ fn run(args: &[String]) -> i32 {
         ("exhaustive".into(), J::Bool(total.exhaustive && p.exhaustive_capable)),
         ("counters".into(), J::Obj(total.counters.iter().map(|(k, v)| (k.clone(), J::Int(*v as i64))).collect())),
         ("shards".into(), J::Int(shards as i64)),
+        ("arithmetic_profiles".into(), J::strs(&if wrap_bin.is_some() { vec!["overflow-checks", "wrapping"] } else { vec!["overflow-checks"] })),
         ("inconclusive".into(), J::Arr(total.inconclusive.iter().map(J::s).collect())),
         (
             "known_findings_observed".into(),
